@@ -104,9 +104,20 @@ func writeSynthJSON(dir string, lic, exc []jl, sparse *SM64) {
 	for i, x := range exc {
 		es = append(es, entry("licenseExceptionId", x, i))
 	}
-	j, _ := json.Marshal(map[string]interface{}{"licenseListVersion": "synthetic", "licenses": ls})
+	top := map[string]interface{}{"licenseListVersion": "synthetic", "licenses": ls}
+	topE := map[string]interface{}{"licenseListVersion": "synthetic", "exceptions": es}
+	if sparse != nil {
+		// other top-level members that mention the same key names (encoding/json sorts keys: these come first)
+		nested := []map[string]interface{}{{"licenseId": "Nested-1.0", "licenseExceptionId": "Nested-exception", "isDeprecatedLicenseId": false}}
+		top["aaa_changes"] = map[string]interface{}{"licenses": nested, "exceptions": nested}
+		top["kind"] = "licenses"
+		top["releaseDate"] = "2026-01-01"
+		topE["aaa_changes"] = map[string]interface{}{"exceptions": nested, "licenses": nested}
+		topE["kind"] = "exceptions"
+	}
+	j, _ := json.Marshal(top)
 	must(os.WriteFile(filepath.Join(dir, "licenses.json"), j, 0o644))
-	j, _ = json.Marshal(map[string]interface{}{"licenseListVersion": "synthetic", "exceptions": es})
+	j, _ = json.Marshal(topE)
 	must(os.WriteFile(filepath.Join(dir, "exceptions.json"), j, 0o644))
 }
 
@@ -657,6 +668,23 @@ func runC13(c *Ctx, out string) {
 			}
 		}
 	}
+	// the caller refills one slice between calls: same backing array, same length, other content
+	for _, width := range []int{1, 2, 3} {
+		buf := make([]string, width)
+		for round := 0; round < 40; round++ {
+			pool := []string{"MIT", "ISC", "Apache-2.0", "GPL-2.0-only", "GPL-2.0+", "LicenseRef-x", "Zlib"}
+			for j := range buf {
+				buf[j] = pool[rng.Intn(len(pool))]
+			}
+			e := pool[rng.Intn(len(pool))]
+			got, _ := spdxexp.Satisfies(e, buf)
+			want, _ := spdxexp.Satisfies(e, append([]string{}, buf...))
+			histories++
+			if got != want {
+				diffs = append(diffs, diff{"S " + hx(e) + " " + hxl(buf), "caller refilled the same slice since the previous call", fmt.Sprint(got), fmt.Sprint(want)})
+			}
+		}
+	}
 	G, reps := 32, 20
 	if c.thorough() {
 		G, reps = 64, 200
@@ -901,6 +929,21 @@ var families = []family{
 		return rep("GPL-3.0-or-later", " AND ", n), a
 	}},
 	// repeated identical sub-expressions, invalid tails, runs of one byte
+	{"and_of_ors_then_fail", func(n int) (string, []string) {
+		return rep("(MIT OR ISC)", " AND ", n) + " AND GPL-3.0-only", []string{"MIT", "ISC"}
+	}},
+	{"fail_then_and_of_ors", func(n int) (string, []string) {
+		return "GPL-3.0-only AND " + rep("(MIT OR ISC OR Zlib)", " AND ", n), []string{"MIT", "ISC", "Zlib"}
+	}},
+	{"and_chain_fail_duplicates", func(n int) (string, []string) {
+		return rep("MIT", " AND ", n) + " AND Apache-1.1 AND " + rep("MIT", " AND ", n), []string{"MIT", "MIT", "MIT", "mit", "(MIT)"}
+	}},
+	{"and_chain_fail_variants", func(n int) (string, []string) {
+		return rep("GPL-2.0-only", " AND ", n) + " AND Apache-1.1", []string{"GPL-2.0", "GPL-2.0-only", "GPL-2.0+", "GPL-1.0-or-later", "GPL-3.0-only"}
+	}},
+	{"or_of_ands_all_fail_late", func(n int) (string, []string) {
+		return rep("(MIT AND ISC AND Zlib AND GPL-3.0-only)", " OR ", n), []string{"MIT", "ISC", "Zlib", "MIT"}
+	}},
 	{"many_short_entries", func(n int) (string, []string) {
 		a := make([]string, n*20)
 		for i := range a {
